@@ -212,7 +212,7 @@ fn run(ctx: &Ctx, mode: &str) -> Report {
         return report; // the shape is part of the main search when the finding is not open
     }
     let p = profile(narrow);
-    let cases = if mode == "narrow" { ctx.cases(800, 8000) } else { ctx.cases(6000, 300_000) };
+    let cases = if mode == "narrow" { ctx.cases(800, 8000) } else { ctx.cases(6000, 120_000) };
     search(ctx, if mode == "narrow" { 2 } else { 1 }, cases, 40..260, &mut report, |choices, rep, _| {
         let mut g = Gen::new(choices, &p);
         let job = g.job();
